@@ -42,7 +42,7 @@ class H5DataSet:
     def write_data(self, data, slc=None):
         if data is None:  # py2compat
             data = np.full(self.shape, np.nan)[slc]
-        if np.size(data) == 0 and self._selected_count(slc):
+        if self._is_empty(data) and self._selected_count(slc):
             # h5py "broadcasts" an empty source with a leading zero-length
             # axis to a non-empty selection and stores whatever lies behind
             # the empty buffer; NumPy refuses such an assignment
@@ -52,6 +52,20 @@ class H5DataSet:
             self.dataset[:] = data
         else:
             self.dataset[slc] = data
+
+    @staticmethod
+    def _is_empty(data):
+        """
+        True if data has no elements. A row of a compound dataset (a tuple
+        of cells of different kinds, e.g. non-ASCII text as bytes next to
+        numbers) that NumPy cannot turn into one array is not empty.
+        """
+        if isinstance(data, np.ndarray):
+            return data.size == 0
+        try:
+            return np.size(data) == 0
+        except Exception:
+            return False
 
     def _selected_count(self, slc):
         """
